@@ -36,7 +36,7 @@ INFO = {
     'explanation': 'see level text',
     'bounds': {t: {'feature': f'size<={b["feature"][0]}, cardinality<={b["feature"][1]}, modes default/explicit values/values+frequencies/random_values, ensure_rep',
                    'data': f'{b["data"][0]} features x <= {b["data"][1]} samples, {len(STRUCTS)} structure templates', 'seed': 'two runs with the same seed around an unrelated draw',
-                   'naive': f'{b["naive"]} rows x 31 columns, needle cells over {{10,39,40,99}}'} for t, b in BOUNDS.items()},
+                   'naive': f'{b["naive"]} rows x 31 columns, needle cells over {{10,39,40,99}}', 'task': 'data_generator task: 31..34 features x 1..4 rows (real RNG, seed 123)'} for t, b in BOUNDS.items()},
     'outside': ['shape of the sampling distribution', 'unsorted structure indices', 'larger sizes', 'data/seed conditions: the draw selecting the mode of the distribution is fixed and shuffles are identity/reversal only (both irrelevant to domains and placement; all outcomes are explored in the feature condition)'],
     'assumptions': ['numpy.random replaced by the RNG stub: choice returns elements of positive probability, shuffle any permutation, randint any value in range'],
     'job_timeout': {'quick': 300, 'thorough': 2400},
@@ -73,10 +73,71 @@ def jobs(tier):
     for si in (0, 1, 4):
         out.append({'cond': 'seed', 'struct': si, 'pins': {}, 'weight': 300, 'label': f'structure {si}'})
     out.append({'cond': 'naive', 'pins': {}, 'weight': 100, 'label': 'naive'})
+    out.append({'cond': 'task', 'pins': {}, 'weight': 50, 'label': 'generator task'})
     return out
 
 
+def drive_task(nf, nr):
+    """the real data_generator task (real CLI parser defaults, real naive generator, real pandas CSV emission) in a scratch directory"""
+    import shutil
+    import tempfile
+    import pandas as pd
+    from harness import pipeline as PL
+    loader.use_repo_on_syspath()
+    import outrank.task_generators as tg
+    d = tempfile.mkdtemp(prefix='c19-', dir='/var/tmp')
+    cwd = os.getcwd()
+    os.chdir(d)
+    try:
+        args = types.SimpleNamespace(generator_type='naive', num_synthetic_features=nf, num_synthetic_rows=nr, output_synthetic_df_name='synth')
+        np.random.seed(123)
+        tg.outrank_task_generate_data_set(args)
+        df = pd.read_csv(os.path.join(d, 'synth', 'data.csv'))
+        np.random.seed(123)
+        before = np.random.randint(10, 100, size=(nr, nf))
+    finally:
+        os.chdir(cwd)
+        shutil.rmtree(d, ignore_errors=True)
+    probs = []
+    if list(df.columns) != [f'f{i}' for i in range(nf)] + ['label'] or df.shape != (nr, nf + 1):
+        probs.append(f'data.csv has columns/shape {list(df.columns)[:3]}.../{df.shape}, requested {nf} features x {nr} rows + label')
+    else:
+        exp = [0 if v < 40 else 1 for v in before[:, 30]]
+        if df['label'].tolist() != exp:
+            probs.append('label column of data.csv is not the fixed function (needle < 40 -> 0 else 1) of the needle feature')
+        others = [c for c in range(nf) if c != 30]
+        if (df[[f'f{c}' for c in others]].values != before[:, others]).any():
+            probs.append('feature columns of data.csv differ from the generated matrix')
+    return probs
+
+
+def run_task(job):
+    loader.record_functions('outrank/task_generators.py', ['outrank_task_generate_data_set'])
+    loader.record_functions('outrank/algorithms/synthetic_data_generators/generator_naive.py', ['generate_random_matrix'])
+    st = {}
+
+    def setup(ctx):
+        st['nf'], st['nr'] = z3.Int('nf'), z3.Int('nr')
+        ctx.assume(st['nf'] >= 31, st['nf'] <= 34, st['nr'] >= 1, st['nr'] <= 4)
+
+    def body(ctx, out):
+        nf, nr = int(SInt(st['nf'], 31, 34)), int(SInt(st['nr'], 1, 4))
+        try:
+            probs = drive_task(nf, nr)
+        except Exception as e:
+            probs = [f'{type(e).__name__}: {e}']
+        w = {'cond': 'task', 'nf': nf, 'nr': nr}
+        if probs or out.twin:
+            out.concrete_fail(w, probs[0] if probs else 'twin')
+        else:
+            out.concrete_ok()
+        out.sample(w)
+    return hutil.run_symx(job, setup, body)
+
+
 def run_job(job):
+    if job['cond'] == 'task':
+        return run_task(job)
     cond, tier = job['cond'], job['tier']
     b = BOUNDS[tier]
     CC = G.load_cc()
@@ -192,6 +253,14 @@ def replay(w):
     loader.use_repo_on_syspath()
     from outrank.algorithms.synthetic_data_generators.cc_generator import CategoricalClassification as CC
     c = w['cond']
+    if c == 'task':
+        try:
+            probs = drive_task(w['nf'], w['nr'])
+        except Exception as e:
+            return {'reproduced': True, 'signature': f'C19:task:exception:{type(e).__name__}', 'what': f'data_generator task with {w["nf"]} features x {w["nr"]} rows: {type(e).__name__}: {e}'}
+        if probs:
+            return {'reproduced': True, 'signature': 'C19:task', 'what': f'data_generator task with {w["nf"]} features x {w["nr"]} rows: {probs[0]}'}
+        return {'reproduced': False, 'what': 'data.csv as specified'}
     if c == 'naive':
         from outrank.algorithms.synthetic_data_generators import generator_naive as gn
         for seed in range(50):
